@@ -181,7 +181,9 @@ sp_ctrsv(char *uplo, char *trans, char *diag, SuperMatrix *L,
 		    for (i = 0; i < nrow; ++i, ++iptr) {
 			irow = L_SUB(iptr);
 			c_sub(&x[irow], &x[irow], &work[i]); /* Scatter */
-			work[i] = comp_zero;
+			/* comp_zero is used as a scratch variable by the
+			   single-column branch above: clear work[] explicitly */
+			work[i].r = 0.0; work[i].i = 0.0;
 
 		    }
 	 	}
